@@ -117,6 +117,13 @@ def _stmt(ex, st, a, weight):
                 if n is None:
                     raise Unsupported(f"loop at line {st.lineno} with calls iterates a non-range")
                 out.append(Alt(b.env, a.total + n * b.total, b.guards))
+        if st.orelse:
+            # for .. else: the loop is not left by `break` (checked above), so the else suite runs once after it
+            nxt = []
+            for b in out:
+                for c in count_calls(ex, st.orelse, b.env, weight, b.guards):
+                    nxt.append(Alt(c.env, b.total + c.total, c.guards, c.done))
+            out = nxt
         return out
     if isinstance(st, ast.If):
         # values known to be > 0 on either arm, evaluated NOW (the arms may re-bind the names the test reads)
@@ -198,7 +205,24 @@ def _stmt(ex, st, a, weight):
     if isinstance(st, (ast.Pass, ast.Assert)):
         return [a]
     if isinstance(st, ast.Try):
-        return [Alt(b.env, a.total + b.total, b.guards, b.done) for b in count_calls(ex, st.body, env, weight, a.guards)]
+        # the normal path: body, then the `else` suite, then `finally` (which also runs on a path that returned inside the body).  A
+        # handler that contains counted calls is outside the algebra (whether it runs depends on exceptions).
+        for h_ in st.handlers:
+            if any(not b.total.is_zero() for b in count_calls(ex, h_.body, dict(env), weight, a.guards)):
+                raise Unsupported(f"exception handler at line {h_.lineno} contains counted calls")
+        out = []
+        for b in count_calls(ex, st.body, env, weight, a.guards):
+            alts = [Alt(b.env, a.total + b.total, b.guards, b.done)]
+            if not b.done and st.orelse:
+                alts = [Alt(c.env, alts[0].total + c.total, c.guards, c.done) for c in count_calls(ex, st.orelse, b.env, weight, b.guards)]
+            if st.finalbody:
+                nxt = []
+                for c in alts:
+                    for d in count_calls(ex, st.finalbody, c.env, weight, c.guards):
+                        nxt.append(Alt(d.env, c.total + d.total, d.guards, c.done or d.done))
+                alts = nxt
+            out.extend(alts)
+        return out
     return [a]
 
 
